@@ -271,6 +271,8 @@ type c08monStream struct {
 func (s *c08monStream) alive() bool { return !s.ended && !s.srvRST && !s.cliRST }
 
 type c08Monitor struct {
+	pfx          string // signature prefix: "C08" (server sends) or "C09" (client sends)
+	who          string
 	cw           int64
 	mfsAcked     int64
 	iwSent       int64 // latest SETTINGS_INITIAL_WINDOW_SIZE sent
@@ -284,7 +286,7 @@ type c08Monitor struct {
 }
 
 func c08NewMonitor() *c08Monitor {
-	return &c08Monitor{cw: c08InitWin, mfsAcked: c08InitMFS, iwSent: c08InitWin, streams: map[uint32]*c08monStream{}}
+	return &c08Monitor{pfx: "C08", who: "server", cw: c08InitWin, mfsAcked: c08InitMFS, iwSent: c08InitWin, streams: map[uint32]*c08monStream{}}
 }
 
 // bound returns the largest stream window any prefix of the unacknowledged
@@ -326,7 +328,7 @@ func c08Sign(v int64) string {
 // frame feeds one server frame to the monitor.
 func (m *c08Monitor) frame(w *vx.W, f c08srvFrame, ctx string) {
 	if int64(f.Len) > m.mfsBound() {
-		w.Failf("C08/max-frame-size/"+f.Type.String()+"-exceeds-limit", "%s: server sent %v with length %d > SETTINGS_MAX_FRAME_SIZE %d in force", ctx, f, f.Len, m.mfsBound())
+		w.Failf(m.pfx+"/max-frame-size/"+f.Type.String()+"-exceeds-limit", "%s: "+m.who+" sent %v with length %d > SETTINGS_MAX_FRAME_SIZE %d in force", ctx, f, f.Len, m.mfsBound())
 	}
 	switch f.Type {
 	case FrameSettings:
@@ -347,16 +349,16 @@ func (m *c08Monitor) frame(w *vx.W, f c08srvFrame, ctx string) {
 	case FrameData:
 		s := m.streams[f.Stream]
 		if s == nil {
-			w.Failf("C08/stream-window/data-on-unopened-stream", "%s: %v on a stream the client never opened", ctx, f)
+			w.Failf(m.pfx+"/stream-window/data-on-unopened-stream", "%s: %v on a stream that was never opened", ctx, f)
 			return
 		}
 		n := int64(f.Len)
 		if n > 0 {
 			if b := m.bound(s); n > b {
-				w.Failf("C08/stream-window/exceeded/window-"+c08Sign(b)+"/after-"+m.lastKind, "%s: %v but the stream send window is %d (SETTINGS/WINDOW_UPDATE history applied)", ctx, f, b)
+				w.Failf(m.pfx+"/stream-window/exceeded/window-"+c08Sign(b)+"/after-"+m.lastKind, "%s: %v but the stream send window is %d (SETTINGS/WINDOW_UPDATE history applied)", ctx, f, b)
 			}
 			if n > m.cw {
-				w.Failf("C08/conn-window/exceeded/window-"+c08Sign(m.cw)+"/after-"+m.lastKind, "%s: %v but the connection send window is %d", ctx, f, m.cw)
+				w.Failf(m.pfx+"/conn-window/exceeded/window-"+c08Sign(m.cw)+"/after-"+m.lastKind, "%s: %v but the connection send window is %d", ctx, f, m.cw)
 			}
 		}
 		s.base -= n
